@@ -9,14 +9,14 @@ TRUSTED_COMMON = [
 
 PROPS = {
     "C17": {
-        "theorems": ["Win.write_spec", "Win.write_length_le", "Win.writes_spec_from", "Win.writes_spec", "Win.writes_length", "Win.disabled_stays_empty"],
+        "theorems": ["Win.write_spec", "Win.write_length_le", "Win.writes_spec_from", "Win.writes_spec", "Win.writes_length", "Win.writes_chunking_irrelevant", "Win.write_write_eq_write_append", "Win.writes_forget", "Win.disabled_stays_empty"],
         "suites": ["win"],
         "trusted": ["Go append/copy semantics as modelled by List append and goCopy (memmove)"],
         "assumptions": ["slideWindow is only used through initialize/Write (checked: factgen digests + suite uses the real type via hook)"],
     },
     "C18": {
         "modules": ["Gws.Props.C18", "Gws.Props.SourceShapeMask"],
-    "theorems": ["SourceShape.mask_bounds_checked", "Mask.maskXOR_eq", "Mask.maskXOR_getElem", "Mask.maskXOR_length", "Mask.maskXOR_involutive", "Mask.Key.get_eq"],
+    "theorems": ["SourceShape.mask_bounds_checked", "Mask.maskXOR_eq", "Mask.maskXOR_getElem", "Mask.maskXOR_length", "Mask.maskXOR_involutive", "Mask.maskXOR_take", "Mask.maskXOR_maskXOR", "Mask.Key.get_eq"],
         "suites": ["mask"],
         "trusted": ["binary.LittleEndian Uint32/Uint64/PutUint64 as modelled by le32/le64/byteOf",
                     "'touches nothing outside the buffer' is not expressible on an immutable list: covered by maskXOR_length, Facts.maskNoUnsafe (Go bounds checks) and guard bytes at all 8 offsets in the tie"],
